@@ -19,7 +19,8 @@ EXPLANATION = (
     "DBSession.__aenter__/__aexit__ are path-enumerated for BEGIN IMMEDIATE, commit iff no exception, rollback "
     "otherwise, release on all exits and re-entry rejection before waiting; the receive loop gathers in-flight "
     "handlers in finally and _call_and_capture_failure never raises. This covers every rejecting path of every "
-    "handler at once. Does not decide interleavings or what SQLite does on a commit failure."
+    "handler at once. Does not decide interleavings or what SQLite does on a commit failure. "
+    "Also: the wait for in-flight handlers in the receive loop's finally is unbounded (no timeout/wait_for); a graph mutation inside a helper counts as covered when every resolved call site of the helper is inside a region."
 )
 ASSUMPTIONS = ["a raised exception inside `async with db` reaches __aexit__ (Python semantics)", "SQLite rollback restores the pre-transaction state"]
 
